@@ -110,7 +110,11 @@ func DumpStat(s ast.Stat) string {
 		for i, b := range x.Blocks {
 			bs[i] = DumpBlock(b)
 		}
-		return fmt.Sprintf("(if [%s] [%s] %s)", dumpExps(x.Exps), strings.Join(bs, " "), lc(x.Loc))
+		els := ""
+		if x.HasElse {
+			els = "+else"
+		}
+		return fmt.Sprintf("(if%s [%s] [%s] %s)", els, dumpExps(x.Exps), strings.Join(bs, " "), lc(x.Loc))
 	case *ast.ForNumStat:
 		return fmt.Sprintf("(fornum %s@%s %s %s %s %s %s)", hx(x.VarName), lc(x.VarLoc), DumpExp(x.InitExp), DumpExp(x.LimitExp), DumpExp(x.StepExp), DumpBlock(x.Block), lc(x.Loc))
 	case *ast.ForInStat:
